@@ -34,13 +34,16 @@ LegacyViols(n, a) == {{}} \cup {{v} : v \in RfcApplicable} \cup {{v, [c |-> "cal
                      \cup {{[c |-> "inputAlg", at |-> 1]}, {[c |-> "indexCont", at |-> 2]} \cap Applicable(n, TRUE, a)}
 Legacy == UNION {{[nch |-> n, cal |-> TRUE, anchor |-> a, pads |-> {}, viol |-> vs, doc |-> d, level |-> l] : d \in Docs, l \in Levels, vs \in LegacyViols(n, a)}
                    : n \in 1..2, a \in {"pub", "auth"}}
-WithRfc(S, b) == {[nch |-> x.nch, cal |-> x.cal, anchor |-> x.anchor, pads |-> x.pads, viol |-> x.viol, doc |-> x.doc, level |-> x.level, rfc |-> b] : x \in S}
+WithRfc(S, b) == {[nch |-> x.nch, cal |-> x.cal, anchor |-> x.anchor, pads |-> x.pads, viol |-> x.viol, doc |-> x.doc, level |-> x.level, rfc |-> b, epoch |-> "after"] : x \in S}
+(* every case that uses SHA-1 in some role is also placed one second before its deprecation date (where the use is legitimate) and exactly at it *)
+AtBoundary(S) == {[x EXCEPT !.epoch = e] : x \in {y \in S : \E v \in y.viol : v.c \in AlgKinds}, e \in {"before", "at"}}
 Cases0 == Plain
          \cup {[nch |-> 1, cal |-> TRUE, anchor |-> "pub", pads |-> {p}, viol |-> {}, doc |-> "equal", level |-> "none"] : p \in PadForms}
          \cup {[nch |-> 2, cal |-> TRUE, anchor |-> "auth", pads |-> {GoodPad, p}, viol |-> {}, doc |-> "absent", level |-> "none"] : p \in PadForms}
          \cup {[nch |-> n, cal |-> TRUE, anchor |-> "pub", pads |-> {}, viol |-> vs, doc |-> d, level |-> l] :
                     n \in 1..2, d \in Docs, l \in Levels, vs \in {{}, {[c |-> "indexShape", at |-> 1]}, {[c |-> "pubHash", at |-> 0]}}}
-Cases == WithRfc(Cases0, FALSE) \cup WithRfc({x \in Legacy : x.doc = "absent" => x.level = "none"}, TRUE)
+Cases1 == WithRfc(Cases0, FALSE) \cup WithRfc({x \in Legacy : x.doc = "absent" => x.level = "none"}, TRUE)
+Cases == Cases1 \cup AtBoundary(Cases1)
 VARIABLE c
 Init == c \in Cases
 Next == UNCHANGED c
